@@ -45,6 +45,17 @@ CHECKS = {
     {"pkg": "./log", "test": "TestC18", "shards": {"quick": 14, "thorough": 16}},
   ],
  },
+ "C09": {
+  "engine": "E-HIST",
+  "rule": "breadth-first search over sequences of part receptions on the real stage.Stage (+ real receive log) in virtual time; after every step the partial listing, every 'did you receive' answer and the completion state are compared with the bytes actually on disk and with the list of acknowledged parts; states deduplicated on sandbox listing + private stage state + reference model; non-trivial = at least two parts",
+  "level": "Every sequence of parts within the bounds is executed on the real Stage; every claim the receiver makes (listing, received-answers, completion) is checked against the staged bytes in every state.",
+  "note": "Bounds: one 8-byte file, 10 intervals, sequences of <=4 (quick) / <=5 (thorough) parts, version changes (hash, size), readers that end one byte early. Concurrent receptions: E-SCHED part.",
+  "technique": "explicit-state breadth-first search over operation histories on the implementation in virtual time, reference-model oracle",
+  "assumptions": ["file contents use pairwise different bytes per position and version, so equal bytes mean received bytes"],
+  "parts": [
+    {"pkg": "./stage", "test": "TestC09", "shards": {"quick": 16, "thorough": 16}},
+  ],
+ },
 }
 
 NOT_APPLICABLE = {}
